@@ -244,7 +244,7 @@ def common_kwargs(common):
         if k == "lifespan_s":
             if v is not None:
                 kw["candles_lifespan"] = timedelta(seconds=v)
-        elif k == "tf_as_enum":
+        elif k in ("tf_as_enum", "tf_lower", "ctype_as_object"):
             continue
         else:
             kw[k] = v
@@ -256,6 +256,12 @@ def common_kwargs(common):
             kw["timeframe"] = TimeFrame(kw["timeframe"])
         except ValueError:
             pass
+    elif (common or {}).get("tf_lower") and isinstance(kw.get("timeframe"), str):
+        kw["timeframe"] = kw["timeframe"].lower()   # timeframe names are case-insensitive
+    if (common or {}).get("ctype_as_object") and isinstance(kw.get("candlestick_type"), str):
+        from hexital.utils.candlesticks import validate_candlesticktype
+
+        kw["candlestick_type"] = validate_candlesticktype(kw["candlestick_type"])   # object form
     return kw
 
 
@@ -325,8 +331,11 @@ def sample_members(rng, k, timeframes=(None,), allow_amorph=True, max_period=12,
         tf = rng.choice(timeframes)
         if tf:
             spec["common"]["timeframe"] = tf
-            if rng.random() < 0.2:
+            r = rng.random()
+            if r < 0.2:
                 spec["common"]["tf_as_enum"] = True
+            elif r < 0.3:
+                spec["common"]["tf_lower"] = True
         name = member_name(spec)
         if name in names or any(helper_collision(spec, o) for o in out):
             continue
